@@ -383,6 +383,9 @@ StartForm ==
             ForAround(<<OM("VarStatement", "", "for"), T("var"),
                         O("VarDecl"), Ident, T("="), E(1, "noin", "any"),
                         C, C>>)
+      [] Start = "ParenExpr" ->
+            <<O("ES5Program"), O("ExprStatement"), O("GroupingOp"), T("("),
+              E(0, "in", "any"), TE(")", "o"), C, TR(";", "x", "term"), C, C>>
       [] OTHER -> <<S("any")>>
 
 Init == LET f == Flush(StartForm, <<>>) IN
